@@ -308,10 +308,24 @@ class ParseNeighbor(Section):
         Section.__init__(self, parser, scope, error)
         self._neighbors: list[bytes] = []
         self.neighbors: dict[str, Neighbor] = {}
+        # routes to put in the Adj-RIB-Out of their neighbor once the whole configuration is accepted
+        self._rib_seed: list[tuple[Neighbor, Any]] = []
 
     def clear(self) -> None:
         self._neighbors = []
         self.neighbors = {}
+        self._rib_seed = []
+
+    def seed_ribs(self) -> None:
+        """Queue the configured routes in the Adj-RIB-Out of their neighbor.
+
+        The RIB of a neighbor is shared with the running session (RIB._cache), so this must only
+        happen once the new configuration is accepted: done while parsing, a reload which failed
+        further down the file had already announced the routes of the refused file.
+        """
+        for neighbor, route in self._rib_seed:
+            neighbor.rib.outgoing.add_to_rib_watchdog(route)
+        self._rib_seed = []
 
     def pre(self) -> bool:
         return self.parse(self.name, 'peer-address')
@@ -541,8 +555,8 @@ class ParseNeighbor(Section):
             # remove_self may well have side effects on route
             route = neighbor.resolve_self(route)
             if route.nlri.family().afi_safi() in families:
-                # This add the family to neighbor.families()
-                neighbor.rib.outgoing.add_to_rib_watchdog(route)
+                # queued by seed_ribs() when the configuration is committed
+                self._rib_seed.append((neighbor, route))
 
         for message in local.get('operational', {}).get('routes', []):
             if message.family().afi_safi() in families:
